@@ -6,6 +6,7 @@ import (
 	"strings"
 	"time"
 
+	"github.com/emitter-io/emitter/internal/async"
 	"github.com/emitter-io/emitter/internal/network/listener"
 	"github.com/emitter-io/emitter/internal/verifx/engine/core"
 	"github.com/emitter-io/emitter/internal/verifx/engine/sched"
@@ -134,6 +135,7 @@ func workerC(c *core.Ctx, args []string) {
 	if len(args) > 3 && strings.HasPrefix(args[3], "accept:") {
 		scName = args[3]
 		sc = scenarioE(strings.TrimPrefix(scName, "accept:"))
+		async.VerifHoldTimers.Store(true) // the per-connection flush timers of the real serve stay silent (build.py, REPO_SUBST)
 	}
 	e := &sched.Explorer{Sc: sc, Bound: bound, Shard: shard, NShards: n, Deadline: c.Deadline}
 	st := e.Explore()
@@ -192,6 +194,8 @@ func replayC(c *core.Ctx, choices []int, pre bool, scName string) {
 	sc := scenarioC(pre)
 	if strings.HasPrefix(scName, "accept:") {
 		sc = scenarioE(strings.TrimPrefix(scName, "accept:"))
+		async.VerifHoldTimers.Store(true)
+		defer async.VerifHoldTimers.Store(false)
 	}
 	sched.EnableFiles(sc.Files...)
 	x := sched.Run(choices, true, sc.Body)
